@@ -1,5 +1,6 @@
 import IndicatorVerif.Model.Registry
 import IndicatorVerif.Model.Stream
+import IndicatorVerif.Spec.Indicators
 /-
   ivdriver: runs the executable models on cases received over a line protocol (stdin → stdout).
   One case per line, one result per line.  Floats travel as 16-digit hex bit patterns.
@@ -37,12 +38,12 @@ def parseFloats (s : String) : Option (List Float) := (splitList s ",").mapM flo
 def parseNats (s : String) : Option (List Nat) := (splitList s ",").mapM String.toNat?
 def parseInts (s : String) : Option (List Int) := (splitList s ",").mapM String.toInt?
 def parseStreams (s : String) : Option (List (List Float)) :=
-  if s == "-" then some [] else (s.splitOn ";").mapM parseFloats
+  if s == "_" then some [] else (s.splitOn ";").mapM parseFloats
 
 def showFloats (l : List Float) : String :=
   if l.isEmpty then "-" else ",".intercalate (l.map hexOfFloat)
 def showStreams (l : List (List Float)) : String :=
-  if l.isEmpty then "-" else ";".intercalate (l.map showFloats)
+  if l.isEmpty then "_" else ";".intercalate (l.map showFloats)
 def showInts (l : List Int) : String :=
   if l.isEmpty then "-" else ",".intercalate (l.map toString)
 def showOptNat : Option Nat → String
@@ -59,14 +60,21 @@ def runInd (name ns fs streams : String) : String :=
       let outs := e.outs.map (Sig.evalL env)
       let offs := ",".intercalate (e.outs.map (fun s => showOptNat (Sig.off s)))
       let needs := ",".intercalate (e.outs.map (fun s => toString (Sig.need s)))
-      s!"ok idle={e.idle} arity={e.arity} offs={offs} needs={needs} | {showStreams outs}"
+      let arrs : Array (Array Float) := (env.map List.toArray).toArray
+      let n := (env.map List.length).foldl Nat.min (match env with | [] => 0 | l :: _ => l.length)
+      let x (j i : Nat) : Float := (arrs.getD j #[]).getD i 0.0
+      let (specS, starts) := match Spec.formulas (α := Float) n name ns fs x with
+        | none => ("_", "-")
+        | some ps => (showStreams (ps.map (fun (a : PS Float) => a.toList n)),
+                      ",".intercalate (ps.map (fun (a : PS Float) => toString a.start)))
+      s!"ok idle={e.idle} arity={e.arity} offs={offs} needs={needs} starts={starts} | {showStreams outs} | {specS}"
   | _, _, _ => "ERR parse"
 
 /-! ### HELPER (C16): integer element type, exact -/
 def intCmpBeq (a b : Int) : Bool := a == b
 
 def runHelper (name params streams : String) : String :=
-  match parseInts params, (if streams == "-" then some [] else (streams.splitOn ";").mapM parseInts) with
+  match parseInts params, (if streams == "_" then some [] else (streams.splitOn ";").mapM parseInts) with
   | some ps, some ins =>
     let p (k : Nat) : Nat := (ps.getD k 0).toNat
     let pi (k : Nat) : Int := ps.getD k 0
@@ -100,7 +108,7 @@ def runHelper (name params streams : String) : String :=
     | "Since" => one (Stream.sinceM intCmpBeq (· + 1) (0 : Int) (none, 0) a)
     | "Echo" => one (Stream.echoM 0 (p 0) (p 1) a)
     | "Seq" => one (Stream.seqM (pi 0) (pi 1) (pi 2) 100000)
-    | "Duplicate" => "ok " ++ (if p 0 = 0 then "-" else ";".intercalate ((Stream.duplicateM (p 0) a).map showInts)) ++ cons
+    | "Duplicate" => "ok " ++ (if p 0 = 0 then "_" else ";".intercalate ((Stream.duplicateM (p 0) a).map showInts)) ++ cons
     | "Operate" => one (Stream.operateM (fun x y => x * 3 + y) a b).1
     | "Operate3" => one (Stream.operate3M (fun x y z => x * 5 + y * 3 + z) a b c).1
     | "Add" => one (Stream.operateM (· + ·) a b).1
